@@ -18,7 +18,22 @@ package c12
 //    stored under, and carries that oracle's bridger; an accepted confirm adds exactly one entry, a rejected one
 //    changes nothing (so no confirm is ever replaced: one per oracle and object);
 //  * transaction stream (real signed txs through FinalizeBlock): a confirm signed by an account that is not the
-//    oracle's bridger (directly, or wrapped in MsgConfirm) must not store anything.
+//    oracle's bridger (directly, or wrapped in MsgConfirm) must not store anything;
+//  * one-coordinate-wrong confirms for every confirm type: right in everything but the token contract (another live
+//    batch's token, a fresh one, another spelling of the same address), the nonce (a neighbouring live object, +-1), the
+//    chain (delivered to another chain that may hold an object with the same key, the same content, the same gravity id
+//    and an oracle with the same key), the external address / bridger of another oracle, the signed object (a neighbour),
+//    an object that never existed / was pruned; clusters of neighbouring objects (same nonce across kinds and tokens,
+//    consecutive nonces, twins on a second chain) make each of them meaningful;
+//  * pruning through the real sites (OutgoingTxBatchExecuted incl. the batches it cancels, CancelOutgoingTxBatch, the
+//    DeleteOracleSet+DeleteOracleSetConfirm pair of pruneOracleSet, DeleteOutgoingBridgeCallRecord), bridger changes
+//    through the real MsgEditBridger, offline oracles;
+//  * WHOLE-STORE monitors: after every message the three confirm stores of the chain are scanned: a rejected message
+//    changes nothing anywhere; an accepted one adds exactly one entry, filed under exactly the key the message names
+//    (kind, token contract, nonce) and the oracle its external address is registered to; that key names an object that is
+//    stored; the entry's signature verifies (own recovery) under that oracle's registered external key over the checkpoint
+//    recomputed from the object READ BACK from the real store under that key; at the end of every sequence every entry of
+//    every store is re-verified against the object that was stored under its key.
 
 import (
 	"bytes"
@@ -64,13 +79,17 @@ type oracleT struct {
 }
 
 type objT struct {
-	kind   string // oset | batch | bcall
-	nonce  uint64
-	token  string // batch only
-	cp     func(gid string) ([]byte, error)
-	digest []byte
-	sol    map[string]any // values the relayer submits, by canonical contract parameter name
+	kind    string // oset | batch | bcall
+	nonce   uint64
+	token   string // batch only
+	cp      func(gid string) ([]byte, error)
+	digest  []byte
+	sol     map[string]any // values the relayer submits, by canonical contract parameter name
+	removed bool
+	proto   any // the stored proto object (to store a twin on another eth-style chain)
 }
+
+func (o *objT) keyStr() string { return fmt.Sprintf("%s/%s/%d", o.kind, o.token, o.nonce) }
 
 type chainT struct {
 	name    string
@@ -78,8 +97,13 @@ type chainT struct {
 	k       crosschainkeeper.Keeper
 	gid     string
 	oracles []*oracleT
-	objs    []*objT
+	objs    []*objT          // live objects
+	gone    []*objT          // removed objects
+	ledger  map[string]*objT // every object ever stored, by key
+	accRec  map[string]types.Oracle // oracle record at the time a confirm was accepted, by store key
+	tokens  [][]byte
 	blockNo uint64
+	txID    uint64
 }
 
 func (c *chainT) addrStr(b []byte) string { return types.ExternalAddrToStr(c.name, b) }
@@ -352,13 +376,18 @@ func allSafe(xs ...uint64) string {
 	return "eq"
 }
 
-func (h *hCtx) storeOracleSet(c *chainT, nonce uint64, safe bool) {
+func b20(c *chainT, text string) []byte {
+	b, err := hex.DecodeString(addr20Hex(c, text))
+	if err != nil {
+		panic(err)
+	}
+	return b
+}
+
+func (h *hCtx) genOracleSet(c *chainT, nonce uint64, safe bool) *types.OracleSet {
 	rng := h.rng
 	n := genLen(rng, h.big_)
 	os := &types.OracleSet{Nonce: nonce, Height: uint64(rng.Intn(1000))}
-	var parts []string
-	pw := []uint64{nonce}
-	solAddrs, solPowers := []common.Address{}, []*big.Int{}
 	for i := 0; i < n; i++ {
 		a := genAddr20(rng)
 		if i < len(c.oracles) && rng.Intn(2) == 0 {
@@ -368,10 +397,20 @@ func (h *hCtx) storeOracleSet(c *chainT, nonce uint64, safe bool) {
 		if safe {
 			p = genSafeU64(rng)
 		}
-		pw = append(pw, p)
-		solAddrs, solPowers = append(solAddrs, common.BytesToAddress(a)), append(solPowers, u256(p))
 		os.Members = append(os.Members, types.BridgeValidator{Power: p, ExternalAddress: c.addrStr(a)})
-		parts = append(parts, fmt.Sprintf("%s:%d", hex.EncodeToString(a), p))
+	}
+	return os
+}
+
+func (h *hCtx) putOracleSet(c *chainT, os *types.OracleSet) *objT {
+	var parts []string
+	pw := []uint64{os.Nonce}
+	solAddrs, solPowers := []common.Address{}, []*big.Int{}
+	for _, m := range os.Members {
+		a := b20(c, m.ExternalAddress)
+		pw = append(pw, m.Power)
+		solAddrs, solPowers = append(solAddrs, common.BytesToAddress(a)), append(solPowers, u256(m.Power))
+		parts = append(parts, fmt.Sprintf("%s:%d", hex.EncodeToString(a), m.Power))
 	}
 	cp := func(gid string) ([]byte, error) {
 		if c.tron {
@@ -380,8 +419,14 @@ func (h *hCtx) storeOracleSet(c *chainT, nonce uint64, safe bool) {
 		return os.GetCheckpoint(gid)
 	}
 	c.k.StoreOracleSet(h.ctx, os)
-	sol := map[string]any{"oraclesetnonce": u256(nonce), "oracles": solAddrs, "powers": solPowers}
-	h.emitStore(c, &objT{kind: "oset", nonce: nonce, cp: cp, sol: sol}, fmt.Sprintf("oset %s %d %s", c.name, nonce, joinOrDash(parts)), allSafe(pw...))
+	sol := map[string]any{"oraclesetnonce": u256(os.Nonce), "oracles": solAddrs, "powers": solPowers}
+	o := &objT{kind: "oset", nonce: os.Nonce, cp: cp, sol: sol, proto: os}
+	h.emitStore(c, o, fmt.Sprintf("oset %s %d %s", c.name, os.Nonce, joinOrDash(parts)), allSafe(pw...))
+	return o
+}
+
+func (h *hCtx) storeOracleSet(c *chainT, nonce uint64, safe bool) *objT {
+	return h.putOracleSet(c, h.genOracleSet(c, nonce, safe))
 }
 
 func joinOrDash(p []string) string {
@@ -391,7 +436,7 @@ func joinOrDash(p []string) string {
 	return strings.Join(p, ",")
 }
 
-func (h *hCtx) storeBatch(c *chainT, token []byte, nonce uint64, safe bool) {
+func (h *hCtx) genBatch(c *chainT, token []byte, nonce uint64, safe bool) *types.OutgoingTxBatch {
 	rng := h.rng
 	n := genLen(rng, h.big_)
 	timeout := genU64(rng)
@@ -399,34 +444,56 @@ func (h *hCtx) storeBatch(c *chainT, token []byte, nonce uint64, safe bool) {
 		timeout = genSafeU64(rng)
 	}
 	fr := genAddr20(rng)
-	c.blockNo++
-	b := &types.OutgoingTxBatch{BatchNonce: nonce, BatchTimeout: timeout, TokenContract: c.addrStr(token), Block: c.blockNo, FeeReceive: c.addrStr(fr)}
-	var parts []string
-	solAm, solDst, solFee := []*big.Int{}, []common.Address{}, []*big.Int{}
+	b := &types.OutgoingTxBatch{BatchNonce: nonce, BatchTimeout: timeout, TokenContract: c.addrStr(token), FeeReceive: c.addrStr(fr)}
 	for i := 0; i < n; i++ {
 		d := genAddr20(rng)
 		am, fee := genAmount(rng), genAmount(rng)
-		solAm, solDst, solFee = append(solAm, am.BigInt()), append(solDst, common.BytesToAddress(d)), append(solFee, fee.BigInt())
-		b.Transactions = append(b.Transactions, &types.OutgoingTransferTx{Id: uint64(i + 1), Sender: helpers.GenAccAddress().String(), DestAddress: c.addrStr(d),
+		b.Transactions = append(b.Transactions, &types.OutgoingTransferTx{Sender: helpers.GenAccAddress().String(), DestAddress: c.addrStr(d),
 			Token: types.ERC20Token{Contract: b.TokenContract, Amount: am}, Fee: types.ERC20Token{Contract: b.TokenContract, Amount: fee}})
-		parts = append(parts, fmt.Sprintf("%s:%s:%s", am.String(), hex.EncodeToString(d), fee.String()))
+	}
+	return b
+}
+
+func (h *hCtx) putBatch(c *chainT, b0 *types.OutgoingTxBatch) *objT {
+	// per chain: its own block number and transaction ids (a cancelled batch puts its transactions back into the pool)
+	b := *b0
+	c.blockNo++
+	b.Block = c.blockNo
+	b.Transactions = nil
+	var parts []string
+	solAm, solDst, solFee := []*big.Int{}, []common.Address{}, []*big.Int{}
+	for _, t0 := range b0.Transactions {
+		t := *t0
+		c.txID++
+		t.Id = c.txID
+		b.Transactions = append(b.Transactions, &t)
+		d := b20(c, t.DestAddress)
+		solAm, solDst, solFee = append(solAm, t.Token.Amount.BigInt()), append(solDst, common.BytesToAddress(d)), append(solFee, t.Fee.Amount.BigInt())
+		parts = append(parts, fmt.Sprintf("%s:%s:%s", t.Token.Amount.String(), hex.EncodeToString(d), t.Fee.Amount.String()))
 	}
 	cp := func(gid string) ([]byte, error) {
 		if c.tron {
-			return trontypes.GetCheckpointConfirmBatch(b, gid)
+			return trontypes.GetCheckpointConfirmBatch(&b, gid)
 		}
 		return b.GetCheckpoint(gid)
 	}
-	if err := c.k.StoreBatch(h.ctx, b); err != nil {
+	if err := c.k.StoreBatch(h.ctx, &b); err != nil {
 		h.t.Fatalf("StoreBatch: %v", err)
 	}
-	sol := map[string]any{"amounts": solAm, "destinations": solDst, "fees": solFee, "batchnonce": u256(nonce), "noncearray[1]": u256(nonce),
-		"tokencontract": common.BytesToAddress(token), "batchtimeout": u256(timeout), "feereceive": common.BytesToAddress(fr)}
-	h.emitStore(c, &objT{kind: "batch", nonce: nonce, token: b.TokenContract, cp: cp, sol: sol},
-		fmt.Sprintf("batch %s %s %s %d %d %s %s", c.name, b.TokenContract, hex.EncodeToString(token), nonce, timeout, hex.EncodeToString(fr), joinOrDash(parts)), allSafe(nonce, timeout))
+	token, fr := b20(c, b.TokenContract), b20(c, b.FeeReceive)
+	sol := map[string]any{"amounts": solAm, "destinations": solDst, "fees": solFee, "batchnonce": u256(b.BatchNonce), "noncearray[1]": u256(b.BatchNonce),
+		"tokencontract": common.BytesToAddress(token), "batchtimeout": u256(b.BatchTimeout), "feereceive": common.BytesToAddress(fr)}
+	o := &objT{kind: "batch", nonce: b.BatchNonce, token: b.TokenContract, cp: cp, sol: sol, proto: b0}
+	h.emitStore(c, o, fmt.Sprintf("batch %s %s %s %d %d %s %s", c.name, b.TokenContract, hex.EncodeToString(token), b.BatchNonce, b.BatchTimeout,
+		hex.EncodeToString(fr), joinOrDash(parts)), allSafe(b.BatchNonce, b.BatchTimeout))
+	return o
 }
 
-func (h *hCtx) storeBridgeCall(c *chainT, nonce uint64, safe bool) {
+func (h *hCtx) storeBatch(c *chainT, token []byte, nonce uint64, safe bool) *objT {
+	return h.putBatch(c, h.genBatch(c, token, nonce, safe))
+}
+
+func (h *hCtx) genBridgeCall(c *chainT, nonce uint64, safe bool) *types.OutgoingBridgeCall {
 	rng := h.rng
 	n := genLen(rng, h.big_)
 	timeout, evn := genU64(rng), genU64(rng)
@@ -437,14 +504,19 @@ func (h *hCtx) storeBridgeCall(c *chainT, nonce uint64, safe bool) {
 	data, memo := genBytes(rng, h.big_*40), genBytes(rng, h.big_*10)
 	bc := &types.OutgoingBridgeCall{Sender: c.addrStr(sd), Refund: c.addrStr(rf), To: c.addrStr(to), Data: hex.EncodeToString(data), Memo: hex.EncodeToString(memo),
 		Nonce: nonce, Timeout: timeout, BlockHeight: uint64(rng.Intn(1000)), EventNonce: evn}
+	for i := 0; i < n; i++ {
+		bc.Tokens = append(bc.Tokens, types.ERC20Token{Contract: c.addrStr(genAddr20(rng)), Amount: genAmount(rng)})
+	}
+	return bc
+}
+
+func (h *hCtx) putBridgeCall(c *chainT, bc *types.OutgoingBridgeCall) *objT {
 	var parts []string
 	solTok, solAmt := []common.Address{}, []*big.Int{}
-	for i := 0; i < n; i++ {
-		ct := genAddr20(rng)
-		am := genAmount(rng)
-		solTok, solAmt = append(solTok, common.BytesToAddress(ct)), append(solAmt, am.BigInt())
-		bc.Tokens = append(bc.Tokens, types.ERC20Token{Contract: c.addrStr(ct), Amount: am})
-		parts = append(parts, fmt.Sprintf("%s:%s", hex.EncodeToString(ct), am.String()))
+	for _, t := range bc.Tokens {
+		ct := b20(c, t.Contract)
+		solTok, solAmt = append(solTok, common.BytesToAddress(ct)), append(solAmt, t.Amount.BigInt())
+		parts = append(parts, fmt.Sprintf("%s:%s", hex.EncodeToString(ct), t.Amount.String()))
 	}
 	cp := func(gid string) ([]byte, error) {
 		if c.tron {
@@ -453,11 +525,32 @@ func (h *hCtx) storeBridgeCall(c *chainT, nonce uint64, safe bool) {
 		return bc.GetCheckpoint(gid)
 	}
 	c.k.SetOutgoingBridgeCall(h.ctx, bc)
+	sd, rf, to := b20(c, bc.Sender), b20(c, bc.Refund), b20(c, bc.To)
+	data, _ := hex.DecodeString(bc.Data)
+	memo, _ := hex.DecodeString(bc.Memo)
 	sol := map[string]any{"sender": common.BytesToAddress(sd), "refund": common.BytesToAddress(rf), "tokens": solTok, "amounts": solAmt,
-		"to": common.BytesToAddress(to), "data": data, "memo": memo, "nonce": u256(nonce), "timeout": u256(timeout), "eventnonce": u256(evn)}
-	h.emitStore(c, &objT{kind: "bcall", nonce: nonce, cp: cp, sol: sol},
-		fmt.Sprintf("bcall %s %d %s %s %s %s %s %d %d %s", c.name, nonce, hex.EncodeToString(sd), hex.EncodeToString(rf), hex.EncodeToString(to),
-			hx.Hex(data), hx.Hex(memo), timeout, evn, joinOrDash(parts)), allSafe(nonce, timeout, evn))
+		"to": common.BytesToAddress(to), "data": data, "memo": memo, "nonce": u256(bc.Nonce), "timeout": u256(bc.Timeout), "eventnonce": u256(bc.EventNonce)}
+	o := &objT{kind: "bcall", nonce: bc.Nonce, cp: cp, sol: sol, proto: bc}
+	h.emitStore(c, o, fmt.Sprintf("bcall %s %d %s %s %s %s %s %d %d %s", c.name, bc.Nonce, hex.EncodeToString(sd), hex.EncodeToString(rf), hex.EncodeToString(to),
+		hx.Hex(data), hx.Hex(memo), bc.Timeout, bc.EventNonce, joinOrDash(parts)), allSafe(bc.Nonce, bc.Timeout, bc.EventNonce))
+	return o
+}
+
+func (h *hCtx) storeBridgeCall(c *chainT, nonce uint64, safe bool) *objT {
+	return h.putBridgeCall(c, h.genBridgeCall(c, nonce, safe))
+}
+
+// putTwin stores the same object (same key, same content) on another eth-style chain.
+func (h *hCtx) putTwin(c2 *chainT, o *objT) *objT {
+	switch p := o.proto.(type) {
+	case *types.OracleSet:
+		return h.putOracleSet(c2, p)
+	case *types.OutgoingTxBatch:
+		return h.putBatch(c2, p)
+	case *types.OutgoingBridgeCall:
+		return h.putBridgeCall(c2, p)
+	}
+	return nil
 }
 
 func (h *hCtx) emitStore(c *chainT, o *objT, op, eq string) {
@@ -468,7 +561,12 @@ func (h *hCtx) emitStore(c *chainT, o *objT, op, eq string) {
 	}
 	o.digest = d
 	c.objs = append(c.objs, o)
+	c.ledger[o.keyStr()] = o
 	h.out.Emit(op, hex.EncodeToString(d)+" "+eq)
+	// monitor: what is read back from the real store under the object's key has this checkpoint
+	if rd := h.liveDigest(c, o.kind, o.token, o.nonce); !bytes.Equal(rd, d) {
+		h.out.Violate(fmt.Sprintf("a stored %s read back from the store under its own key has another checkpoint than the object that was stored", o.kind))
+	}
 	if eq == "eq" && o.sol != nil {
 		// monitor: the checkpoint fxcore signs is the digest the contract recomputes (uint64 fields within int64)
 		var gidW [32]byte
@@ -489,6 +587,50 @@ func (h *hCtx) emitStore(c *chainT, o *objT, op, eq string) {
 		}
 	}
 	h.out.Count("store:" + o.kind + ":" + map[bool]string{true: "tron", false: "eth"}[c.tron] + ":" + eq)
+}
+
+// liveDigest reads the object back from the REAL store under exactly (kind, token, nonce) and recomputes its checkpoint
+// under the gravity id of the chain's parameters; nil when no such object is stored.
+func (h *hCtx) liveDigest(c *chainT, kind, token string, nonce uint64) []byte {
+	gid := c.gid
+	var d []byte
+	var err error
+	switch kind {
+	case "oset":
+		os := c.k.GetOracleSet(h.ctx, nonce)
+		if os == nil {
+			return nil
+		}
+		if c.tron {
+			d, err = trontypes.GetCheckpointOracleSet(os, gid)
+		} else {
+			d, err = os.GetCheckpoint(gid)
+		}
+	case "batch":
+		b := c.k.GetOutgoingTxBatch(h.ctx, token, nonce)
+		if b == nil {
+			return nil
+		}
+		if c.tron {
+			d, err = trontypes.GetCheckpointConfirmBatch(b, gid)
+		} else {
+			d, err = b.GetCheckpoint(gid)
+		}
+	default:
+		bc, found := c.k.GetOutgoingBridgeCallByNonce(h.ctx, nonce)
+		if !found {
+			return nil
+		}
+		if c.tron {
+			d, err = trontypes.GetCheckpointBridgeCall(bc, gid)
+		} else {
+			d, err = bc.GetCheckpoint(gid)
+		}
+	}
+	if err != nil {
+		return nil
+	}
+	return d
 }
 
 // ---- confirms ----------------------------------------------------------------------------------------------------
@@ -515,43 +657,66 @@ func errKind(err error) string {
 	return "err:other:" + strings.ReplaceAll(s, "\n", " ")
 }
 
-type storedT struct {
-	oracle  sdk.AccAddress
-	raw     []byte
-	bridger string
-	ext     string
-	sig     string
+// keyT: what a confirm message names
+type keyT struct {
+	kind  string
+	token string
+	nonce uint64
 }
 
-func (h *hCtx) storedConfirms(c *chainT, o *objT) []storedT {
-	var prefix []byte
-	switch o.kind {
-	case "oset":
-		prefix = types.GetOracleSetConfirmKey(o.nonce, nil)
-	case "batch":
-		prefix = types.GetBatchConfirmKey(o.token, o.nonce, nil)
-	default:
-		prefix = types.GetBridgeCallConfirmKey(o.nonce, nil)
-	}
-	var res []storedT
+func (k keyT) str() string { return fmt.Sprintf("%s/%s/%d", k.kind, k.token, k.nonce) }
+func (o *objT) key() keyT  { return keyT{o.kind, o.token, o.nonce} }
+
+// entryT: one entry of a confirm store, key parsed
+type entryT struct {
+	key      keyT
+	oracle   sdk.AccAddress
+	storeKey string
+	raw      []byte
+	bridger  string
+	ext      string
+	sig      string
+	msgKey   keyT // what the stored message itself names
+}
+
+// scanAll reads the three confirm stores of the chain completely.
+func (h *hCtx) scanAll(c *chainT) []entryT {
+	var res []entryT
 	cdc := h.s.App.AppCodec()
-	for _, kv := range hx.RawPrefix(h.ctx, h.s.App.GetKey(c.name), prefix) {
-		st := storedT{oracle: sdk.AccAddress(kv[0][len(prefix):]), raw: kv[1]}
-		switch o.kind {
-		case "oset":
-			var m types.MsgOracleSetConfirm
-			cdc.MustUnmarshal(kv[1], &m)
-			st.bridger, st.ext, st.sig = m.BridgerAddress, m.ExternalAddress, m.Signature
-		case "batch":
-			var m types.MsgConfirmBatch
-			cdc.MustUnmarshal(kv[1], &m)
-			st.bridger, st.ext, st.sig = m.BridgerAddress, m.ExternalAddress, m.Signature
-		default:
-			var m types.MsgBridgeCallConfirm
-			cdc.MustUnmarshal(kv[1], &m)
-			st.bridger, st.ext, st.sig = m.BridgerAddress, m.ExternalAddress, m.Signature
+	sk := h.s.App.GetKey(c.name)
+	for _, kv := range hx.RawPrefix(h.ctx, sk, types.OracleSetConfirmKey) {
+		k := kv[0][len(types.OracleSetConfirmKey):]
+		e := entryT{storeKey: string(kv[0]), raw: kv[1]}
+		if len(k) >= 8 {
+			e.key, e.oracle = keyT{"oset", "", sdk.BigEndianToUint64(k[:8])}, sdk.AccAddress(k[8:])
 		}
-		res = append(res, st)
+		var m types.MsgOracleSetConfirm
+		cdc.MustUnmarshal(kv[1], &m)
+		e.bridger, e.ext, e.sig, e.msgKey = m.BridgerAddress, m.ExternalAddress, m.Signature, keyT{"oset", "", m.Nonce}
+		res = append(res, e)
+	}
+	for _, kv := range hx.RawPrefix(h.ctx, sk, types.BatchConfirmKey) {
+		k := kv[0][len(types.BatchConfirmKey):]
+		e := entryT{storeKey: string(kv[0]), raw: kv[1]}
+		if len(k) >= 28 {
+			e.key = keyT{"batch", string(k[:len(k)-28]), sdk.BigEndianToUint64(k[len(k)-28 : len(k)-20])}
+			e.oracle = sdk.AccAddress(k[len(k)-20:])
+		}
+		var m types.MsgConfirmBatch
+		cdc.MustUnmarshal(kv[1], &m)
+		e.bridger, e.ext, e.sig, e.msgKey = m.BridgerAddress, m.ExternalAddress, m.Signature, keyT{"batch", m.TokenContract, m.Nonce}
+		res = append(res, e)
+	}
+	for _, kv := range hx.RawPrefix(h.ctx, sk, types.BridgeCallConfirmKey) {
+		k := kv[0][len(types.BridgeCallConfirmKey):]
+		e := entryT{storeKey: string(kv[0]), raw: kv[1]}
+		if len(k) >= 8 {
+			e.key, e.oracle = keyT{"bcall", "", sdk.BigEndianToUint64(k[:8])}, sdk.AccAddress(k[8:])
+		}
+		var m types.MsgBridgeCallConfirm
+		cdc.MustUnmarshal(kv[1], &m)
+		e.bridger, e.ext, e.sig, e.msgKey = m.BridgerAddress, m.ExternalAddress, m.Signature, keyT{"bcall", "", m.Nonce}
+		res = append(res, e)
 	}
 	return res
 }
@@ -565,13 +730,17 @@ func (h *hCtx) oracleID(c *chainT, a sdk.AccAddress) int {
 	return 9999
 }
 
-func (h *hCtx) showStored(c *chainT, sts []storedT) string {
+// showStored: canonical text of the entries filed under one key
+func (h *hCtx) showStored(c *chainT, all []entryT, k keyT) string {
 	type e struct {
 		id  int
 		sig string
 	}
 	var es []e
-	for _, st := range sts {
+	for _, st := range all {
+		if st.key != k {
+			continue
+		}
 		sg := st.sig
 		if len(sg) > 8 {
 			sg = sg[:8]
@@ -579,7 +748,8 @@ func (h *hCtx) showStored(c *chainT, sts []storedT) string {
 		if sg == "" {
 			sg = "-"
 		}
-		es = append(es, e{h.oracleID(c, st.oracle), strings.ToLower(sg)})
+		// oracle, first signature bytes, and the bridger / external address the stored message carries
+		es = append(es, e{h.oracleID(c, st.oracle), strings.ToLower(sg) + ":" + st.bridger + ":" + st.ext})
 	}
 	sort.Slice(es, func(i, j int) bool { return es[i].id < es[j].id })
 	var p []string
@@ -589,56 +759,92 @@ func (h *hCtx) showStored(c *chainT, sts []storedT) string {
 	return "[" + strings.Join(p, ",") + "]"
 }
 
-// monitor: every stored confirm of the object re-verifies under the registered external address of its oracle.
-func (h *hCtx) monitorStored(c *chainT, o *objT, sts []storedT, class string) {
-	real, err := o.cp(c.k.GetGravityID(h.ctx))
-	if err != nil {
+// verifyEntry: the property, stated on one entry of the real confirm store.
+func (h *hCtx) verifyEntry(c *chainT, e entryT, class string) {
+	kind := e.key.kind
+	if e.msgKey != e.key {
+		h.out.Violate(fmt.Sprintf("a stored %s confirm is filed under another key (token contract / nonce) than the object the stored message names (after %s)", kind, class))
+	}
+	o := c.ledger[e.key.str()]
+	if o == nil {
+		h.out.Violate(fmt.Sprintf("a stored %s confirm is filed under a key (token contract / nonce) that names no %s ever stored: its signature was not verified against the object it names (after %s)", kind, kind, class))
 		return
 	}
-	for _, st := range sts {
-		rec, found := c.k.GetOracle(h.ctx, st.oracle)
+	digest := h.liveDigest(c, e.key.kind, e.key.token, e.key.nonce)
+	if digest == nil {
+		if !o.removed {
+			h.out.Violate(fmt.Sprintf("a stored %s confirm names an object that is no longer stored although nothing removed it (after %s)", kind, class))
+		}
+		digest = o.digest
+	}
+	rec, snap := c.accRec[e.storeKey]
+	if !snap {
+		var found bool
+		rec, found = c.k.GetOracle(h.ctx, e.oracle)
 		if !found {
-			h.out.Violate(fmt.Sprintf("stored %s confirm under an oracle address without oracle record (after %s)", o.kind, class))
-			continue
+			h.out.Violate(fmt.Sprintf("stored %s confirm under an oracle address without oracle record (after %s)", kind, class))
+			return
 		}
-		sig, err := hex.DecodeString(st.sig)
-		if err != nil {
-			h.out.Violate(fmt.Sprintf("stored %s confirm carries a non-hex signature (after %s)", o.kind, class))
-			continue
+	}
+	sig, err := hex.DecodeString(e.sig)
+	if err != nil {
+		h.out.Violate(fmt.Sprintf("stored %s confirm carries a non-hex signature (after %s)", kind, class))
+		return
+	}
+	if got := c.recoverOwn(digest, sig); got != rec.ExternalAddress {
+		h.out.Violate(fmt.Sprintf("stored %s confirm does not verify under the oracle's registered external key over the checkpoint of the stored object it is filed under (after %s)", kind, class))
+	}
+	if e.ext != rec.ExternalAddress {
+		h.out.Violate(fmt.Sprintf("stored %s confirm names an external address that is not the oracle's (after %s)", kind, class))
+	}
+	if e.bridger != rec.BridgerAddress {
+		h.out.Violate(fmt.Sprintf("stored %s confirm was submitted by a bridger that is not the oracle's (after %s)", kind, class))
+	}
+	h.out.Count("verify-entry:" + kind)
+}
+
+// verifyAll: every entry of every confirm store of the chain (end of a sequence)
+func (h *hCtx) verifyAll(c *chainT) {
+	seen := map[string]bool{}
+	for _, e := range h.scanAll(c) {
+		h.verifyEntry(c, e, "end of sequence")
+		slot := e.key.str() + "/" + e.oracle.String()
+		if seen[slot] {
+			h.out.Violate("two confirmations of one oracle for one object are stored")
 		}
-		if got := c.recoverOwn(real, sig); got != rec.ExternalAddress {
-			h.out.Violate(fmt.Sprintf("stored %s confirm does not verify under the oracle's registered external key over the object's checkpoint (after %s)", o.kind, class))
-		}
-		if st.ext != rec.ExternalAddress {
-			h.out.Violate(fmt.Sprintf("stored %s confirm names an external address that is not the oracle's (after %s)", o.kind, class))
-		}
-		if st.bridger != rec.BridgerAddress {
-			h.out.Violate(fmt.Sprintf("stored %s confirm was submitted by a bridger that is not the oracle's (after %s)", o.kind, class))
-		}
+		seen[slot] = true
 	}
 }
 
-func (h *hCtx) mkMsg(c *chainT, o *objT, bridger, ext, sig string) sdk.Msg {
-	switch o.kind {
+func (h *hCtx) mkMsg(c *chainT, k keyT, bridger, ext, sig string) sdk.Msg {
+	switch k.kind {
 	case "oset":
-		return &types.MsgOracleSetConfirm{Nonce: o.nonce, BridgerAddress: bridger, ExternalAddress: ext, Signature: sig, ChainName: c.name}
+		return &types.MsgOracleSetConfirm{Nonce: k.nonce, BridgerAddress: bridger, ExternalAddress: ext, Signature: sig, ChainName: c.name}
 	case "batch":
-		return &types.MsgConfirmBatch{Nonce: o.nonce, TokenContract: o.token, BridgerAddress: bridger, ExternalAddress: ext, Signature: sig, ChainName: c.name}
+		return &types.MsgConfirmBatch{Nonce: k.nonce, TokenContract: k.token, BridgerAddress: bridger, ExternalAddress: ext, Signature: sig, ChainName: c.name}
 	default:
-		return &types.MsgBridgeCallConfirm{Nonce: o.nonce, BridgerAddress: bridger, ExternalAddress: ext, Signature: sig, ChainName: c.name}
+		return &types.MsgBridgeCallConfirm{Nonce: k.nonce, BridgerAddress: bridger, ExternalAddress: ext, Signature: sig, ChainName: c.name}
 	}
 }
 
-func keyArgs(o *objT) string {
-	if o.kind == "batch" {
-		return fmt.Sprintf("batch %s %d", o.token, o.nonce)
+func keyArgs(k keyT) string {
+	if k.kind == "batch" {
+		return fmt.Sprintf("batch %s %d", k.token, k.nonce)
 	}
-	return fmt.Sprintf("%s %d", o.kind, o.nonce)
+	return fmt.Sprintf("%s %d", k.kind, k.nonce)
+}
+
+func entriesByKey(es []entryT) map[string]entryT {
+	m := map[string]entryT{}
+	for _, e := range es {
+		m[e.storeKey] = e
+	}
+	return m
 }
 
 // sendConfirm delivers one confirm through the real router and emits op + observation, then runs the monitors.
-func (h *hCtx) sendConfirm(c *chainT, o *objT, bridger, ext, sigText string, signedDigest []byte, class string) {
-	msg := h.mkMsg(c, o, bridger, ext, sigText)
+func (h *hCtx) sendConfirm(c *chainT, k keyT, bridger, ext, sigText string, signedDigest []byte, class string) {
+	msg := h.mkMsg(c, k, bridger, ext, sigText)
 	sigField := sigText
 	var sigBytes []byte
 	if b, err := hex.DecodeString(sigText); err != nil {
@@ -654,7 +860,7 @@ func (h *hCtx) sendConfirm(c *chainT, o *objT, bridger, ext, sigText string, sig
 		h.out.Count("basic-reject:" + class)
 		direct = true
 	}
-	before := h.storedConfirms(c, o)
+	before := h.scanAll(c)
 	var res string
 	cctx, write := h.ctx.CacheContext()
 	saved := h.ctx
@@ -674,36 +880,51 @@ func (h *hCtx) sendConfirm(c *chainT, o *objT, bridger, ext, sigText string, sig
 		write()
 	}
 	h.ctx = saved
-	after := h.storedConfirms(c, o)
+	after := h.scanAll(c)
 	a := "-"
 	if sigBytes != nil {
 		a = c.recoverOwn(signedDigest, sigBytes)
 	}
-	op := fmt.Sprintf("confirm %s %s %s %s %s %s %s", c.name, keyArgs(o), bridger, ext, sigField, hx.Hex(signedDigest), a)
-	h.out.Emit(op, kind+" "+h.showStored(c, after))
+	op := fmt.Sprintf("confirm %s %s %s %s %s %s %s", c.name, keyArgs(k), bridger, ext, sigField, hx.Hex(signedDigest), a)
+	h.out.Emit(op, fmt.Sprintf("%s %s n=%d", kind, h.showStored(c, after, k), len(after)))
 	h.out.Count("confirm:" + class + ":" + kind)
-	h.out.Nontrivial(o.kind + "|" + class + "|" + kind + "|" + map[bool]string{true: "tron", false: "eth"}[c.tron])
-	// monitors
+	h.out.Nontrivial(k.kind + "|" + class + "|" + kind + "|" + map[bool]string{true: "tron", false: "eth"}[c.tron])
+	// whole-store monitors
+	bm, am := entriesByKey(before), entriesByKey(after)
+	var added []entryT
+	for sk, e := range am {
+		if b, ok := bm[sk]; !ok {
+			added = append(added, e)
+		} else if !bytes.Equal(b.raw, e.raw) {
+			h.out.Violate(fmt.Sprintf("a stored %s confirm was replaced by a later confirm (%s): more than one confirmation per oracle and object was effective", e.key.kind, class))
+		}
+	}
+	for sk, b := range bm {
+		if _, ok := am[sk]; !ok {
+			h.out.Violate(fmt.Sprintf("a stored %s confirm was removed by a later confirm (%s)", b.key.kind, class))
+		}
+	}
 	if kind == "ok" {
-		if len(after) != len(before)+1 {
-			h.out.Violate(fmt.Sprintf("accepted %s confirm (%s) did not add exactly one entry", o.kind, class))
+		if len(added) != 1 {
+			h.out.Violate(fmt.Sprintf("accepted %s confirm (%s) did not add exactly one entry to the confirm stores", k.kind, class))
 		}
-	} else if len(after) != len(before) {
-		h.out.Violate(fmt.Sprintf("rejected %s confirm (%s) changed the confirm store", o.kind, class))
+	} else if len(added) != 0 {
+		h.out.Violate(fmt.Sprintf("rejected %s confirm (%s) changed the confirm store", k.kind, class))
 	}
-	for _, b := range before {
-		okSame := false
-		for _, x := range after {
-			if x.oracle.Equals(b.oracle) && bytes.Equal(x.raw, b.raw) {
-				okSame = true
-			}
+	for _, e := range added {
+		if e.key != k {
+			h.out.Violate(fmt.Sprintf("an accepted %s confirm (%s) was filed under another key (token contract / nonce) than the message names", k.kind, class))
 		}
-		if !okSame {
-			h.out.Violate(fmt.Sprintf("a stored %s confirm was replaced or removed by a later confirm (%s): more than one confirmation per oracle and object was effective", o.kind, class))
+		if oa, found := c.k.GetOracleAddrByExternalAddr(h.ctx, ext); !found || !oa.Equals(e.oracle) {
+			h.out.Violate(fmt.Sprintf("an accepted %s confirm (%s) was filed under another oracle than the one its external address is registered to", k.kind, class))
 		}
-	}
-	if o.digest != nil {
-		h.monitorStored(c, o, after, class)
+		if rec, found := c.k.GetOracle(h.ctx, e.oracle); found {
+			c.accRec[e.storeKey] = rec
+		}
+		if h.liveDigest(c, e.key.kind, e.key.token, e.key.nonce) == nil {
+			h.out.Violate(fmt.Sprintf("an accepted %s confirm (%s) is filed under a key (token contract / nonce) under which no %s is stored", k.kind, class, k.kind))
+		}
+		h.verifyEntry(c, e, class)
 	}
 }
 
@@ -718,20 +939,84 @@ func malleate(sig []byte) []byte {
 	return out
 }
 
-func (h *hCtx) randomConfirm(c *chainT, others []*chainT) {
+func pickObj(rng *rand.Rand, objs []*objT, pred func(*objT) bool) *objT {
+	var cand []*objT
+	for _, o := range objs {
+		if pred(o) {
+			cand = append(cand, o)
+		}
+	}
+	if len(cand) == 0 {
+		return nil
+	}
+	return cand[rng.Intn(len(cand))]
+}
+
+// otherSpelling: the same 20-byte address in another text form (eth-style chains: lower case / upper case hex)
+func otherSpelling(rng *rand.Rand, s string) string {
+	if !strings.HasPrefix(s, "0x") {
+		return s
+	}
+	if rng.Intn(2) == 0 {
+		return strings.ToLower(s)
+	}
+	return "0x" + strings.ToUpper(s[2:])
+}
+
+// gravity ids each chain had earlier in this process (a signature made under an id the chain no longer has must fail)
+var gidHistory = map[string][]string{}
+
+var confirmClasses = []string{"valid", "valid", "valid", "valid", "valid", "v27", "malleated", "malleated27", "vbad", "truncated", "overlong", "zero", "other-object", "other-gid",
+	"other-prefix", "other-key", "other-chain-checkpoint", "wrong-bridger", "unknown-ext", "missing-object", "nothex", "empty", "swapped-identity", "random65", "no-prefix",
+	// right in all but one coordinate
+	"wrong-token", "wrong-token", "wrong-token-spelling", "wrong-nonce", "wrong-nonce", "wrong-chain", "wrong-chain", "ext-of-other-oracle", "bridger-of-other-oracle",
+	"neighbour-sig", "neighbour-sig", "pruned-object", "pruned-object", "other-kind-same-nonce", "ext-spelling", "earlier-gid", "self-made-identity"}
+
+func (h *hCtx) randomConfirm(c *chainT, others []*chainT) { h.confirmOfClass(c, others, "", "") }
+
+// sweep: every confirm class once against an object of every kind, oracle 0 (a bonded one) — the systematic part of the
+// generator: each run contains every (class, kind) combination at least once, whatever the seed.
+func (h *hCtx) sweep(c *chainT, others []*chainT) {
+	seen := map[string]bool{}
+	for _, class := range confirmClasses {
+		if seen[class] {
+			continue
+		}
+		seen[class] = true
+		for _, kind := range []string{"oset", "batch", "bcall"} {
+			h.confirmOfClass(c, others, class, kind)
+		}
+	}
+	h.out.Count("sweep")
+}
+
+// confirmOfClass sends one confirm of the given class ("" = random) against an object of the given kind ("" = any).
+func (h *hCtx) confirmOfClass(c *chainT, others []*chainT, forceClass, forceKind string) {
 	rng := h.rng
 	if len(c.objs) == 0 || len(c.oracles) == 0 {
 		return
 	}
 	o := c.objs[rng.Intn(len(c.objs))]
 	or := c.oracles[rng.Intn(len(c.oracles))]
+	if forceKind != "" {
+		if o = pickObj(rng, c.objs, func(x *objT) bool { return x.kind == forceKind }); o == nil {
+			return
+		}
+		or = c.oracles[0]
+	}
 	bridger, ext := or.bridger.String(), or.ext
+	if rec, found := c.k.GetOracle(h.ctx, or.addr); found {
+		bridger = rec.BridgerAddress // after a bridger change the current one is the valid submitter
+	}
 	valid := c.sign(o.digest, or.key)
-	classes := []string{"valid", "valid", "valid", "valid", "v27", "malleated", "malleated27", "vbad", "truncated", "overlong", "zero", "other-object", "other-gid",
-		"other-prefix", "other-key", "other-chain-checkpoint", "wrong-bridger", "unknown-ext", "missing-object", "nothex", "empty", "swapped-identity", "random65", "no-prefix"}
-	class := classes[rng.Intn(len(classes))]
+	class := confirmClasses[rng.Intn(len(confirmClasses))]
+	if forceClass != "" {
+		class = forceClass
+	}
 	sig := valid
 	digest := o.digest
+	k := o.key()
+	target := c
 	switch class {
 	case "v27":
 		sig = append([]byte{}, valid...)
@@ -764,8 +1049,45 @@ func (h *hCtx) randomConfirm(c *chainT, others []*chainT) {
 		}
 		digest = o2.digest
 		sig = c.sign(digest, or.key)
+	case "neighbour-sig":
+		// a valid signature of this oracle over the NEIGHBOURING object: same kind, nonce +-1, or same nonce / other token
+		o2 := pickObj(rng, c.objs, func(x *objT) bool {
+			return x != o && x.kind == o.kind && (x.nonce == o.nonce || x.nonce == o.nonce+1 || x.nonce+1 == o.nonce)
+		})
+		if o2 == nil {
+			return
+		}
+		digest = o2.digest
+		sig = c.sign(digest, or.key)
+	case "other-kind-same-nonce":
+		// a valid signature over the object of ANOTHER kind that has the same nonce
+		o2 := pickObj(rng, c.objs, func(x *objT) bool { return x.kind != o.kind && x.nonce == o.nonce })
+		if o2 == nil {
+			return
+		}
+		digest = o2.digest
+		sig = c.sign(digest, or.key)
 	case "other-gid":
 		g := genGid(rng)
+		if g == c.gid {
+			return
+		}
+		d, err := o.cp(g)
+		if err != nil {
+			return
+		}
+		digest = d
+		sig = c.sign(digest, or.key)
+	case "earlier-gid":
+		// the oracle's signature over this very object under a gravity id this chain had before its parameter changed
+		hist := gidHistory[c.name]
+		if len(hist) < 2 {
+			return
+		}
+		g := hist[0]
+		if rng.Intn(2) == 0 {
+			g = hist[len(hist)-2]
+		}
 		if g == c.gid {
 			return
 		}
@@ -807,6 +1129,28 @@ func (h *hCtx) randomConfirm(c *chainT, others []*chainT) {
 		if bridger == or.bridger.String() {
 			return
 		}
+	case "bridger-of-other-oracle":
+		// everything of oracle A, submitted under the bridger of oracle B
+		if len(c.oracles) < 2 {
+			return
+		}
+		b := c.oracles[(or.id+1+rng.Intn(len(c.oracles)-1))%len(c.oracles)]
+		if rec, found := c.k.GetOracle(h.ctx, b.addr); found {
+			bridger = rec.BridgerAddress
+		} else {
+			bridger = b.bridger.String()
+		}
+	case "ext-of-other-oracle":
+		// A's bridger and A's signature under the external address of oracle B
+		if len(c.oracles) < 2 {
+			return
+		}
+		ext = c.oracles[(or.id+1+rng.Intn(len(c.oracles)-1))%len(c.oracles)].ext
+	case "ext-spelling":
+		ext = otherSpelling(rng, ext)
+		if ext == or.ext {
+			return
+		}
 	case "swapped-identity":
 		// oracle A's valid signature presented under oracle B's external address and bridger
 		if len(c.oracles) < 2 {
@@ -814,37 +1158,275 @@ func (h *hCtx) randomConfirm(c *chainT, others []*chainT) {
 		}
 		b := c.oracles[(or.id+1)%len(c.oracles)]
 		bridger, ext = b.bridger.String(), b.ext
+	case "self-made-identity":
+		// a consistent but unregistered identity: a fresh key, ITS address as external address, its signature over the
+		// right checkpoint — submitted by a registered oracle's bridger
+		k2, _ := crypto.GenerateKey()
+		ext = c.addrStr(crypto.PubkeyToAddress(k2.PublicKey).Bytes())
+		sig = c.sign(digest, k2)
 	case "unknown-ext":
 		ext = c.addrStr(genAddr20(rng))
 	case "missing-object":
-		o = &objT{kind: o.kind, nonce: o.nonce + 1000003, token: o.token}
+		k.nonce = o.nonce + 1000003
 		digest = c.objs[0].digest
+	case "wrong-token":
+		// a batch confirm right in everything (live nonce, the oracle's valid signature over that live batch) but the
+		// token contract: another live batch's token, the chain's other token, or a fresh address
+		o = pickObj(rng, c.objs, func(x *objT) bool { return x.kind == "batch" })
+		if o == nil {
+			return
+		}
+		k, digest = o.key(), o.digest
+		sig = c.sign(digest, or.key)
+		switch rng.Intn(3) {
+		case 0:
+			if o2 := pickObj(rng, c.objs, func(x *objT) bool { return x.kind == "batch" && x.token != o.token }); o2 != nil {
+				k.token = o2.token
+			} else {
+				k.token = c.addrStr(genAddr20(rng))
+			}
+		case 1:
+			k.token = c.addrStr(c.tokens[rng.Intn(len(c.tokens))])
+		default:
+			k.token = c.addrStr(genAddr20(rng))
+		}
+		if k.token == o.token {
+			return
+		}
+	case "wrong-token-spelling":
+		o = pickObj(rng, c.objs, func(x *objT) bool { return x.kind == "batch" })
+		if o == nil {
+			return
+		}
+		k, digest = o.key(), o.digest
+		sig = c.sign(digest, or.key)
+		k.token = otherSpelling(rng, o.token)
+		if k.token == o.token {
+			return
+		}
+	case "wrong-nonce":
+		// right in everything but the nonce: a neighbouring nonce (live or not), signature over the object really meant
+		switch rng.Intn(4) {
+		case 0:
+			k.nonce = o.nonce + 1
+		case 1:
+			k.nonce = o.nonce - 1
+		default:
+			o2 := pickObj(rng, c.objs, func(x *objT) bool { return x.kind == o.kind && x.token == o.token && x.nonce != o.nonce })
+			if o2 == nil {
+				return
+			}
+			k.nonce = o2.nonce
+		}
+	case "wrong-chain":
+		// the confirm that is valid on this chain, delivered to another chain (which may hold an object under the same
+		// key, even with the same content and gravity id, and an oracle with the same external key and bridger)
+		target = others[rng.Intn(len(others))]
+		if target.tron != c.tron {
+			return
+		}
+		if rng.Intn(4) > 0 {
+			// prefer an operator that also runs an oracle on the target chain (same external key)
+			var shared []*oracleT
+			for _, a := range c.oracles {
+				for _, b := range target.oracles {
+					if a.key == b.key {
+						shared = append(shared, a)
+					}
+				}
+			}
+			if len(shared) > 0 {
+				or = shared[rng.Intn(len(shared))]
+				bridger, ext = or.bridger.String(), or.ext
+				if rec, found := c.k.GetOracle(h.ctx, or.addr); found {
+					bridger = rec.BridgerAddress
+				}
+			}
+		}
+		if o2 := pickObj(rng, c.objs, func(x *objT) bool { return target.has(x.kind, x.token, x.nonce) }); o2 != nil && rng.Intn(4) > 0 {
+			o = o2
+		}
+		k, digest = o.key(), o.digest
+		sig = c.sign(digest, or.key)
+	case "pruned-object":
+		// the oracle's valid signature over an object that was stored and has been removed
+		if o = pickObj(rng, c.gone, func(x *objT) bool { return forceKind == "" || x.kind == forceKind }); o == nil {
+			return
+		}
+		k, digest = o.key(), o.digest
+		sig = c.sign(digest, or.key)
 	case "nothex":
-		h.sendConfirm(c, o, bridger, ext, "zz"+hex.EncodeToString(valid)[2:], digest, class)
+		h.sendConfirm(c, k, bridger, ext, "zz"+hex.EncodeToString(valid)[2:], digest, class)
 		return
 	case "empty":
 		sig = nil
 	}
-	h.sendConfirm(c, o, bridger, ext, hex.EncodeToString(sig), digest, class)
+	h.sendConfirm(target, k, bridger, ext, hex.EncodeToString(sig), digest, class)
+}
+
+// ---- pruning and registry changes ---------------------------------------------------------------------------------
+
+func (h *hCtx) markRemoved(c *chainT, o *objT) {
+	o.removed = true
+	for i, x := range c.objs {
+		if x == o {
+			c.objs = append(c.objs[:i], c.objs[i+1:]...)
+			break
+		}
+	}
+	c.gone = append(c.gone, o)
+}
+
+func (h *hCtx) emitRemove(c *chainT, site string, o *objT, res string, before []entryT) {
+	after := h.scanAll(c)
+	live := 0
+	if h.liveDigest(c, o.kind, o.token, o.nonce) != nil {
+		live = 1
+	}
+	obs := fmt.Sprintf("%s %s live=%d n=%d", res, h.showStored(c, after, o.key()), live, len(after))
+	h.out.Emit(fmt.Sprintf("remove %s %s %s", c.name, site, keyArgs(o.key())), obs)
+	h.out.Count("remove:" + site + ":" + res)
+	if res == "ok" && live == 0 {
+		h.markRemoved(c, o)
+	}
+}
+
+// randomRemove removes one live object through a real pruning site (in a cache context: a failing site changes nothing).
+func (h *hCtx) randomRemove(c *chainT) {
+	rng := h.rng
+	if len(c.objs) < 3 {
+		return
+	}
+	o := c.objs[rng.Intn(len(c.objs))]
+	before := h.scanAll(c)
+	bm := entriesByKey(before)
+	removedKeys := map[string]bool{o.key().str(): true}
+	saved := h.ctx
+	cctx, write := h.ctx.CacheContext()
+	site := ""
+	var lower []*objT
+	var f func() error
+	switch o.kind {
+	case "oset":
+		// the two calls of pruneOracleSet (unexported, end-blocker only), in its order
+		site = "pruneOracleSet"
+		f = func() error {
+			c.k.DeleteOracleSet(cctx, o.nonce)
+			c.k.DeleteOracleSetConfirm(cctx, o.nonce)
+			return nil
+		}
+	case "bcall":
+		site = "DeleteOutgoingBridgeCallRecord"
+		f = func() error { c.k.DeleteOutgoingBridgeCallRecord(cctx, o.nonce); return nil }
+	default:
+		if rng.Intn(2) == 0 {
+			site = "CancelOutgoingTxBatch"
+			f = func() error { return c.k.CancelOutgoingTxBatch(cctx, o.token, o.nonce) }
+		} else {
+			// executing a batch cancels every live batch of the same token with a lower nonce
+			site = "OutgoingTxBatchExecuted"
+			for _, x := range c.objs {
+				if x.kind == "batch" && x.token == o.token && x.nonce < o.nonce {
+					lower = append(lower, x)
+					removedKeys[x.key().str()] = true
+				}
+			}
+			f = func() error { c.k.OutgoingTxBatchExecuted(cctx, o.token, o.nonce); return nil }
+		}
+	}
+	res := hx.Try(f)
+	if res != "ok" {
+		h.out.Count("remove-failed:" + site)
+		h.out.Stats.Extra["remove_failed_"+site] = res
+		return
+	}
+	write()
+	h.ctx = saved
+	h.emitRemove(c, site, o, "ok", before)
+	for _, x := range lower {
+		h.emitRemove(c, "CancelOutgoingTxBatch", x, "ok", before)
+	}
+	// monitor: pruning touches only the confirmations filed under the removed keys
+	am := entriesByKey(h.scanAll(c))
+	for sk, b := range bm {
+		if a, ok := am[sk]; (!ok || !bytes.Equal(a.raw, b.raw)) && !removedKeys[b.key.str()] {
+			h.out.Violate(fmt.Sprintf("pruning a %s removed or changed a confirmation filed under another object", o.kind))
+		}
+	}
+	for sk := range am {
+		if _, ok := bm[sk]; !ok {
+			h.out.Violate(fmt.Sprintf("pruning a %s added a confirmation", o.kind))
+		}
+	}
+}
+
+// editBridger changes an oracle's bridger through the real MsgEditBridger.
+func (h *hCtx) editBridger(c *chainT) {
+	or := c.oracles[h.rng.Intn(len(c.oracles))]
+	rec, found := c.k.GetOracle(h.ctx, or.addr)
+	if !found {
+		return
+	}
+	nb := helpers.GenAccAddress()
+	msg := &types.MsgEditBridger{ChainName: c.name, OracleAddress: or.addr.String(), BridgerAddress: nb.String()}
+	cctx, write := h.ctx.CacheContext()
+	// MsgEditBridger.ValidateBasic parses bridger_address as a VALIDATOR address while the handler parses it as an
+	// account address, so the message router rejects every well-formed MsgEditBridger in this snapshot (recorded, not
+	// a C12 matter); the real handler is called directly
+	if err := msg.ValidateBasic(); err != nil {
+		h.out.Count("edit-bridger:basic-reject")
+	}
+	res := hx.Try(func() error {
+		_, err := crosschainkeeper.NewMsgServerImpl(c.k).EditBridger(cctx, msg)
+		return err
+	})
+	h.out.Count("edit-bridger:" + strings.SplitN(res, ":", 2)[0])
+	if res != "ok" {
+		h.out.Stats.Extra["edit_bridger_error"] = res
+		return
+	}
+	write()
+	or.bridger = nb
+	h.out.Emit(fmt.Sprintf("oracle %s %d %s %s", c.name, or.id, nb.String(), rec.ExternalAddress), "ok")
 }
 
 // ---- set-up ------------------------------------------------------------------------------------------------------
 
-func (h *hCtx) setupChain(name string, k crosschainkeeper.Keeper, nOracles int) *chainT {
+func (h *hCtx) setupChain(name string, k crosschainkeeper.Keeper, nOracles int, prev []*chainT) *chainT {
 	rng := h.rng
-	c := &chainT{name: name, tron: name == trontypes.ModuleName, k: k}
+	c := &chainT{name: name, tron: name == trontypes.ModuleName, k: k, ledger: map[string]*objT{}, accRec: map[string]types.Oracle{}}
+	c.tokens = [][]byte{genAddr20(rng), genAddr20(rng)}
+	for _, pc := range prev {
+		// token contracts shared with an earlier chain of the same address style (twins need the same token text)
+		if pc.tron == c.tron && rng.Intn(2) == 0 {
+			c.tokens = pc.tokens
+		}
+	}
 	params := k.GetParams(h.ctx)
 	params.GravityId = genGid(rng)
 	if err := k.SetParams(h.ctx, &params); err != nil {
 		h.t.Fatalf("SetParams: %v", err)
 	}
-	c.gid = k.GetGravityID(h.ctx)
+	// the gravity id is taken from the parameters that were set, NOT read back through the keeper: the monitors must not
+	// inherit a stale or otherwise wrong id from the code under test
+	c.gid = params.GravityId
+	if got := k.GetGravityID(h.ctx); got != c.gid {
+		h.out.Violate(fmt.Sprintf("the gravity id the %s handlers compute checkpoints under is not the chain's gravity-id parameter (after the parameter was changed)", map[bool]string{true: "tron", false: "eth-style"}[c.tron]))
+	}
+	gidHistory[name] = append(gidHistory[name], c.gid)
 	h.out.Emit(fmt.Sprintf("chain %s %s %s", name, map[bool]string{true: "tron", false: "eth"}[c.tron], gidHex(c.gid)), "ok")
 	po := &types.ProposalOracle{}
 	for i := 0; i < nOracles; i++ {
 		key, _ := crypto.GenerateKey()
 		or := &oracleT{id: i, addr: helpers.GenAccAddress(), bridger: helpers.GenAccAddress(), key: key}
-		or.ext = c.addrStr(crypto.PubkeyToAddress(key.PublicKey).Bytes())
+		// the same operator on several chains: same external key and same bridger account
+		for _, pc := range prev {
+			if i < len(pc.oracles) && rng.Intn(2) == 0 {
+				or.key, or.bridger = pc.oracles[i].key, pc.oracles[i].bridger
+				h.out.Count("oracle:shared-identity")
+			}
+		}
+		or.ext = c.addrStr(crypto.PubkeyToAddress(or.key.PublicKey).Bytes())
 		c.oracles = append(c.oracles, or)
 		po.Oracles = append(po.Oracles, or.addr.String())
 	}
@@ -852,8 +1434,8 @@ func (h *hCtx) setupChain(name string, k crosschainkeeper.Keeper, nOracles int) 
 	threshold := k.GetOracleDelegateThreshold(h.ctx)
 	for i, or := range c.oracles {
 		mode := "bonded"
-		if i > 0 && rng.Intn(4) == 0 {
-			mode = []string{"direct", "lowercase", "index-mismatch", "dangling-index"}[rng.Intn(4)]
+		if i > 0 && rng.Intn(3) == 0 {
+			mode = []string{"direct", "lowercase", "index-mismatch", "dangling-index", "offline"}[rng.Intn(5)]
 		}
 		if c.tron && mode == "lowercase" {
 			mode = "direct"
@@ -871,11 +1453,11 @@ func (h *hCtx) setupChain(name string, k crosschainkeeper.Keeper, nOracles int) 
 			}
 			h.out.Emit(fmt.Sprintf("oracle %s %d %s %s", name, or.id, or.bridger.String(), or.ext), "ok")
 			h.out.Emit(fmt.Sprintf("index %s %s %d", name, or.ext, or.id), "ok")
-		case "direct", "lowercase":
+		case "direct", "lowercase", "offline":
 			if mode == "lowercase" {
 				or.ext = strings.ToLower(or.ext)
 			}
-			k.SetOracle(h.ctx, types.Oracle{OracleAddress: or.addr.String(), BridgerAddress: or.bridger.String(), ExternalAddress: or.ext, DelegateAmount: sdkmath.NewInt(1), Online: true})
+			k.SetOracle(h.ctx, types.Oracle{OracleAddress: or.addr.String(), BridgerAddress: or.bridger.String(), ExternalAddress: or.ext, DelegateAmount: sdkmath.NewInt(1), Online: mode != "offline"})
 			k.SetOracleAddrByBridgerAddr(h.ctx, or.bridger, or.addr)
 			k.SetOracleAddrByExternalAddr(h.ctx, or.ext, or.addr)
 			h.out.Emit(fmt.Sprintf("oracle %s %d %s %s", name, or.id, or.bridger.String(), or.ext), "ok")
@@ -896,10 +1478,13 @@ func (h *hCtx) setupChain(name string, k crosschainkeeper.Keeper, nOracles int) 
 	return c
 }
 
+func (c *chainT) has(kind, token string, nonce uint64) bool {
+	_, ok := c.ledger[keyT{kind, token, nonce}.str()]
+	return ok
+}
+
 func (h *hCtx) populate(c *chainT, nObj int) {
 	rng := h.rng
-	tokens := [][]byte{genAddr20(rng), genAddr20(rng)}
-	used := map[string]bool{}
 	for i := 0; i < nObj; i++ {
 		safe := rng.Intn(3) > 0
 		nonce := genU64(rng)
@@ -907,22 +1492,61 @@ func (h *hCtx) populate(c *chainT, nObj int) {
 			nonce = genSafeU64(rng)
 		}
 		kind := rng.Intn(3)
-		tok := tokens[rng.Intn(2)]
-		key := fmt.Sprintf("%d/%d/%x", kind, nonce, tok)
-		if kind != 1 {
-			key = fmt.Sprintf("%d/%d", kind, nonce)
-		}
-		if used[key] {
-			continue
-		}
-		used[key] = true
+		tok := c.tokens[rng.Intn(2)]
 		switch kind {
 		case 0:
-			h.storeOracleSet(c, nonce, safe)
+			if !c.has("oset", "", nonce) {
+				h.storeOracleSet(c, nonce, safe)
+			}
 		case 1:
-			h.storeBatch(c, tok, nonce, safe)
+			if !c.has("batch", c.addrStr(tok), nonce) {
+				h.storeBatch(c, tok, nonce, safe)
+			}
 		default:
-			h.storeBridgeCall(c, nonce, safe)
+			if !c.has("bcall", "", nonce) {
+				h.storeBridgeCall(c, nonce, safe)
+			}
+		}
+	}
+}
+
+// populateCluster stores NEIGHBOURING objects: every kind at nonce b and b+1, batches of both tokens at the same nonce and
+// of one token at consecutive nonces; and twins (same key, same content) of some of them on another chain of the same
+// address style.
+func (h *hCtx) populateCluster(c *chainT, twinOn *chainT) {
+	rng := h.rng
+	b := uint64(1000 + rng.Intn(1000000))
+	if rng.Intn(4) == 0 {
+		b = 1<<63 - 2 // the cluster straddles the int64 boundary: b+1 = 2^63-1 is the last safe nonce
+	}
+	var made []*objT
+	add := func(o *objT) {
+		if o != nil {
+			made = append(made, o)
+		}
+	}
+	for _, n := range []uint64{b, b + 1} {
+		if !c.has("oset", "", n) {
+			add(h.storeOracleSet(c, n, true))
+		}
+		if !c.has("bcall", "", n) {
+			add(h.storeBridgeCall(c, n, true))
+		}
+		if !c.has("batch", c.addrStr(c.tokens[0]), n) {
+			add(h.storeBatch(c, c.tokens[0], n, true))
+		}
+	}
+	if !c.has("batch", c.addrStr(c.tokens[1]), b) {
+		add(h.storeBatch(c, c.tokens[1], b, true))
+	}
+	h.out.Count("cluster")
+	if twinOn == nil || twinOn.tron != c.tron {
+		return
+	}
+	for _, o := range made {
+		if rng.Intn(2) == 0 && !twinOn.has(o.kind, o.token, o.nonce) {
+			h.putTwin(twinOn, o)
+			h.out.Count("twin:" + o.kind)
 		}
 	}
 }
@@ -1049,26 +1673,30 @@ func TestC12(t *testing.T) {
 	out.Stats.Extra["solidity_sites_loaded"] = len(sites)
 	nSeq := hx.N(40, 300)
 	big_ := 40
-	nObj, nConf := 10, 70
+	nObj, nConf := 8, 90
 	if hx.Tier() == "thorough" {
-		big_, nObj, nConf = 150, 14, 120
+		big_, nObj, nConf = 150, 12, 150
 	}
 	for q := 0; q < nSeq; q++ {
 		out.Reset()
 		cctx, _ := s.Ctx.CacheContext()
 		h := &hCtx{t: t, s: s, out: out, rng: rng, ctx: cctx, big_: big_, sites: sites}
-		chains := []*chainT{
-			h.setupChain("eth", s.App.EthKeeper, 1+rng.Intn(4)),
-			h.setupChain("bsc", s.App.BscKeeper, 1+rng.Intn(3)),
-			h.setupChain("tron", s.App.TronKeeper, 1+rng.Intn(4)),
-		}
+		var chains []*chainT
+		chains = append(chains, h.setupChain("eth", s.App.EthKeeper, 1+rng.Intn(4), chains))
+		chains = append(chains, h.setupChain("bsc", s.App.BscKeeper, 1+rng.Intn(3), chains))
+		chains = append(chains, h.setupChain("tron", s.App.TronKeeper, 1+rng.Intn(4), chains))
 		if rng.Intn(3) == 0 {
 			// same gravity id on two chains: only the objects' content separates them
 			p := chains[1].k.GetParams(h.ctx)
 			p.GravityId = chains[0].gid
 			_ = chains[1].k.SetParams(h.ctx, &p)
 			chains[1].gid = chains[0].gid
+			gidHistory["bsc"] = append(gidHistory["bsc"], chains[1].gid)
+			if got := chains[1].k.GetGravityID(h.ctx); got != chains[1].gid {
+				out.Violate("the gravity id the eth-style handlers compute checkpoints under is not the chain's gravity-id parameter (after the parameter was changed)")
+			}
 			out.Emit(fmt.Sprintf("chain bsc eth %s", gidHex(chains[1].gid)), "ok")
+			out.Count("same-gravity-id")
 			// the model re-creates the chain: replay its registry
 			for _, or := range chains[1].oracles {
 				rec, found := chains[1].k.GetOracle(h.ctx, or.addr)
@@ -1083,6 +1711,27 @@ func TestC12(t *testing.T) {
 		for _, c := range chains {
 			h.populate(c, nObj)
 		}
+		h.populateCluster(chains[0], chains[1])
+		if rng.Intn(2) == 0 {
+			h.populateCluster(chains[1], chains[0])
+		}
+		if rng.Intn(2) == 0 {
+			h.populateCluster(chains[2], nil)
+		}
+		if q < 3 {
+			// systematic part: on chain q, a few prunings first (so that pruned objects exist), then every class x kind
+			ci := q % len(chains)
+			var others []*chainT
+			for j, c := range chains {
+				if j != ci {
+					others = append(others, c)
+				}
+			}
+			for i := 0; i < 6; i++ {
+				h.randomRemove(chains[ci])
+			}
+			h.sweep(chains[ci], others)
+		}
 		for i := 0; i < nConf; i++ {
 			ci := rng.Intn(len(chains))
 			var others []*chainT
@@ -1091,7 +1740,17 @@ func TestC12(t *testing.T) {
 					others = append(others, c)
 				}
 			}
-			h.randomConfirm(chains[ci], others)
+			switch r := rng.Intn(100); {
+			case r < 6:
+				h.randomRemove(chains[ci])
+			case r < 9:
+				h.editBridger(chains[ci])
+			default:
+				h.randomConfirm(chains[ci], others)
+			}
+		}
+		for _, c := range chains {
+			h.verifyAll(c)
 		}
 	}
 	out.Reset()
